@@ -36,6 +36,20 @@ Inductive outcome := COk (options_current : bool) (wrapped : bool) | CRaise.
 Definition wsdl_obj (unwrap : bool) : N := if unwrap then 1001%N else 1000%N.
 Definition obj_unwrap (o : N) : bool := N.odd o.
 
+(* what a DocumentReader.open does besides the cache: EvFetch u -- the document is fetched from
+   the store/transport, the document plugins' loaded() hooks run on its bytes and it is parsed;
+   EvParsed u -- the document plugins' parsed() hooks run on the document's root.
+   Position of the hooks (the point of this part of the model): loaded() runs inside __fetch,
+   i.e. only on a miss and BEFORE cache.put, so what a policy-0 cache stores is the document after
+   loaded() and before parsed(); parsed() runs on EVERY open, cached or not.  Under policy 1
+   the WSDL object built from the documents AFTER both hooks is what is stored, and a hit opens
+   no document at all. *)
+Inductive ev := EvFetch (u : N) | EvParsed (u : N).
+Definition fetched_of (l : list ev) : list N :=
+  flat_map (fun e => match e with EvFetch u => [u] | EvParsed _ => [] end) l.
+Definition parsed_of (l : list ev) : list N :=
+  flat_map (fun e => match e with EvParsed u => [u] | EvFetch _ => [] end) l.
+
 Section Reader.
   Variable ser : kind -> N -> bytes.
   Variable deser : kind -> bytes -> option N.
@@ -54,16 +68,17 @@ Section Reader.
     | None => ret tt
     end.
 
-  (* DocumentReader.open; the value is the list of urls fetched from the store/transport *)
-  Definition doc_open (c : inst) (pol : N) (t : Z) (u : N) : M (list N) :=
+  (* DocumentReader.open; the value is what happened besides the cache *)
+  Definition doc_open (c : inst) (pol : N) (t : Z) (u : N) : M (list ev) :=
     let cache := if N.eqb pol 0 then Some c else None in
     x <- r_get cache t (mangle (md5 u) s_document) ;;
     match x with
-    | Some _ => ret []
-    | None => _ <- r_put cache t (mangle (md5 u) s_document) u true ;; ret [u]
+    | Some _ => ret [EvParsed u]                          (* self.plugins.document.parsed(...) *)
+    | None =>                                             (* xml = self.__fetch(url); cache.put(id, xml) *)
+        _ <- r_put cache t (mangle (md5 u) s_document) u true ;; ret [EvFetch u; EvParsed u]
     end.
 
-  Fixpoint load (c : inst) (pol : N) (t : Z) (us : list N) : M (list N) :=
+  Fixpoint load (c : inst) (pol : N) (t : Z) (us : list N) : M (list ev) :=
     match us with
     | [] => ret []
     | u :: us' => a <- doc_open c pol t u ;; b <- load c pol t us' ;; ret (a ++ b)
@@ -71,7 +86,7 @@ Section Reader.
 
   (* DefinitionsReader.open *)
   Definition defs_open (c : inst) (pol : N) (t : Z) (w : world) (unwrap : bool)
-    : M (list N * outcome) :=
+    : M (list ev * outcome) :=
     let cache := if N.eqb pol 1 then Some c else None in
     x <- r_get cache t (mangle (md5 (w_main w)) s_wsdl) ;;
     match x with
@@ -94,7 +109,7 @@ Section Reader.
 
   Definition cstate := (fsys * Z)%type.
 
-  Definition cstep (w : world) (s : cstate) (o : cop) : cstate * option (list N * outcome) :=
+  Definition cstep (w : world) (s : cstate) (o : cop) : cstate * option (list ev * outcome) :=
     let (f, t) := s in
     match o with
     | CClient k d pol unwrap =>
@@ -108,7 +123,7 @@ Section Reader.
     | CAdvance d => ((f, (t + d)%Z), None)
     end.
 
-  Fixpoint crun (w : world) (s : cstate) (h : list cop) : list (cstate * option (list N * outcome)) :=
+  Fixpoint crun (w : world) (s : cstate) (h : list cop) : list (cstate * option (list ev * outcome)) :=
     match h with
     | [] => []
     | o :: h' => let sr := cstep w s o in sr :: crun w (fst sr) h'
@@ -121,6 +136,7 @@ End Reader.
 (* what the harness observed for one Client(...) *)
 Record cobs := mkcobs {
   o_fetched : list N;        (* urls fetched from the document store *)
+  o_parsed : list N;         (* urls the client's DocumentPlugin.parsed() hook was called with *)
   o_transport : bool;        (* the transport was asked for a document *)
   o_out : outcome;           (* constructed (options identity, body.wrapped of operation f) or raised *)
   o_wrapped_ref : bool;      (* body.wrapped of the same client built with no cache *)
@@ -200,14 +216,15 @@ Definition outcome_eqb (a b : outcome) : bool :=
   | _, _ => false
   end.
 
-Fixpoint ctrace_eqb (names : list str) (tr : list (cstate * option (list N * outcome)))
+Fixpoint ctrace_eqb (names : list str) (tr : list (cstate * option (list ev * outcome)))
          (obs : list (option cobs * N)) : bool :=
   match tr, obs with
   | [], [] => true
   | (s, r) :: tr', (b, pres) :: obs' =>
       match r, b with
       | None, None => true
-      | Some (f, out), Some c => list_eqb N.eqb f (o_fetched c) && outcome_eqb out (o_out c)
+      | Some (f, out), Some c => list_eqb N.eqb (fetched_of f) (o_fetched c)
+                                 && list_eqb N.eqb (parsed_of f) (o_parsed c) && outcome_eqb out (o_out c)
       | _, _ => false
       end
       && N.eqb (mask (fst s) names) pres
